@@ -234,6 +234,14 @@ def gen_batch(rng, nstructs=14, can=False, granular_share=0.0, big=False):
         d.enums.append(("N0", [("NA", 0), ("NB", 5), ("NC", 255)]))
         d.structs.append(("SN", [("a", 1, ("dyn", ("arr", ("enum", "N0"), 2))), ("b", 0, ("opt", ("arr", ("enum", "N0"), 2))),
                                  ("c", 2, ("u", 8))]))
+    if not can:
+        # bindings collected at the end of the file, also for structs that are nested in structs declared before the binding:
+        # every per-protocol header must define a struct before the structs that contain it
+        def mentions(t, name):
+            return t == ("struct", name) or (t[0] in ("arr", "dyn", "opt") and mentions(t[1], name))
+        nested = [n for k, (n, _) in enumerate(d.structs) if any(mentions(f[2], n) for _, fs in d.structs[k + 1:] for f in fs)]
+        for j, n in enumerate(rng.sample(nested, min(len(nested), 3))):
+            extra.append(f'impl {rng.choice(["can", "uart"])} for {n} {{\n    id: {700 + j},\n}}')
     d.extra = "\n".join(extra) + "\n"
     if not can and len(d.structs) >= 2 and rng.random() < 0.5:
         # services: the C++ generator derives rpc wrapper structs and id enums from them
